@@ -489,7 +489,13 @@ def header_alone_cases(tree, seed, tier):
     core = [h for h in tree.public_headers if "/units/" not in h and "/constants/" not in h]
     rest = [h for h in tree.public_headers if h not in core]
     headers = core + (rest if tier == "thorough" else rng.sample(rest, min(12, len(rest))))
-    return [{"seed": seed, "run": "alone-%s-%s/%s" % (h, c, s), "header_alone": h, "toolchain": {"a": [c, s]}} for h in headers for (c, s) in all_toolchains()]
+    cases = [{"seed": seed, "run": "alone-%s-%s/%s" % (h, c, s), "header_alone": h, "toolchain": {"a": [c, s]}} for h in headers for (c, s) in all_toolchains()]
+    # every unit's forward declarations against its definition, toolchains rotating (thorough: all six)
+    tcs = all_toolchains()
+    for i, u in enumerate(tree.units):
+        for tc in (tcs if tier == "thorough" else [tcs[i % len(tcs)]]):
+            cases.append({"seed": seed, "run": "fwd-%s-%s/%s" % (u, tc[0], tc[1]), "fwd_unit": u, "toolchain": {"a": list(tc)}})
+    return cases
 
 
 def crash_sweep_sessions(tree, seed, tier):
